@@ -1488,7 +1488,8 @@ func createDefaultMailboxes(db *sql.DB, userID int64) error {
 
 	for _, mbx := range defaultMailboxes {
 		_, err := CreateMailboxPerUser(db, userID, mbx.name, mbx.specialUse)
-		if err != nil {
+		// an interrupted or concurrent initialization may have created some of them already
+		if err != nil && !strings.Contains(err.Error(), "already exists") {
 			return fmt.Errorf("failed to create mailbox %s: %v", mbx.name, err)
 		}
 	}
